@@ -1160,3 +1160,20 @@ MUTANTS += [
            more=[(BASE, _CANCEL_DEF, _GEN_DUE.replace("            if item.cancelled:\n                self._cancellations -= 1\n                continue\n", "") + _CANCEL_DEF)]),
     Mutant("new-heap-never-heapified", BASE, _COMPACT, _COMPACT_BEFORE.replace("            heapify(kept)\n", ""), expect_rule="heap/compaction"),
 ]
+
+_PHASE = ('    def _runDue(self):\n        now = self.seconds()\n        while self._pendingTimedCalls:\n            if not self._pendingTimedCalls[0].time <= now:\n                return\n'
+          '            call = heappop(self._pendingTimedCalls)\n            if call.cancelled:\n                self._cancellations -= 1\n            elif call.delayed_time > 0.0:\n'
+          '                call.activate_delay()\n                heappush(self._pendingTimedCalls, call)\n            else:\n                self._runOne(call)\n\n'
+          '    def _runOne(self, call):\n        with _DEFAULT_DELAYED_CALL_LOGGING_HANDLER:\n            call.called = 1\n            call.func(*call.args, **call.kw)\n\n')
+_RUN_BODY = "        now = self.seconds()\n" + _RUN_LOOP
+SILENT += [
+    # runUntilCurrent as a driver of private phase methods; the due-test as an inner guard that returns from inside the loop
+    Silent("phase-methods-with-return-inside-loop", BASE, _RUN_BODY, "        self._runDue()\n        if False:\n",
+           more=[(BASE, _CANCEL_DEF, _PHASE + _CANCEL_DEF)]),
+]
+MUTANTS += [
+    Mutant("phase-method-strict-due-test", BASE, _RUN_BODY, "        self._runDue()\n        if False:\n", expect_rule="run/loop-boundary",
+           more=[(BASE, _CANCEL_DEF, _PHASE.replace("[0].time <= now", "[0].time < now") + _CANCEL_DEF)]),
+    Mutant("phase-method-marks-after-calling", BASE, _RUN_BODY, "        self._runDue()\n        if False:\n", expect_rule="run/called-before-call",
+           more=[(BASE, _CANCEL_DEF, _PHASE.replace("            call.called = 1\n            call.func(*call.args, **call.kw)\n", "            call.func(*call.args, **call.kw)\n            call.called = 1\n") + _CANCEL_DEF)]),
+]
